@@ -18,3 +18,39 @@ package appmanifest
 //@   ghost verified bool = false
 //@   on call VerifyTimestamp(t, d, _) ret (cs, e): verified = (e == nil && t == token && sameslice(d, atcall(m.EncryptedDigest)))
 //@   ensures @timestamp_attached_only_if_it_covers_this_signature ret0 == nil ==> verified
+
+//@ func setAssemblyIdentity
+//@   property C19
+//@   ghost tok string = ""
+//@   ghost tokOK bool = false
+//@   before call PublicKeyToken(k): assert @token_of_the_signing_certificate_key k == cert.Leaf.PublicKey
+//@   on call PublicKeyToken(_) ret (t, e): tok = t; tokOK = (e == nil)
+//@   before call (*etree.Element).CreateAttr(e, name, val): assert @manifest_carries_that_token tokOK && name == "publicKeyToken" && val == tok
+//@
+//@ func setPublisherIdentity
+//@   property C19
+//@   ghost subj string = ""
+//@   ghost ikh string = ""
+//@   ghost idOK bool = false
+//@   before call PublisherIdentity(c): assert @publisher_of_the_signing_certificate c == cert
+//@   on call PublisherIdentity(_) ret (n, h, e): subj = n; ikh = h; idOK = (e == nil)
+//@   before call (*etree.Element).CreateAttr(e, name, val): assert @publisher_identity_written_as_computed idOK && \
+//@        (name == "name" ==> val == subj) && (name == "issuerKeyHash" ==> val == ikh) && (name == "name" || name == "issuerKeyHash")
+//@   ensures @subject_name_returned ret1 == nil ==> idOK && ret0 == subj
+//@
+//@ func PublisherIdentity
+//@   property C19
+//@   ghost issuerKey crypto.PublicKey = nil
+//@   on call (*certloader.Certificate).Issuer(c) ret (i): issuerKey = ite(i != nil, i.PublicKey, issuerKey)
+//@   before call x509tools.SubjectKeyID(k): assert @issuer_key_hash_is_of_the_issuer_in_the_chain k == issuerKey
+//@   before call x509tools.FormatPkixName(raw, style): assert @publisher_name_is_the_leaf_subject sameslice(raw, cert.Leaf.RawSubject)
+//@
+//@ func Sign
+//@   property C19
+//@   ghost asiDone bool = false
+//@   ghost pubDone bool = false
+//@   before call setAssemblyIdentity(r, c): assert @identity_of_the_signing_certificate c == cert
+//@   before call setPublisherIdentity(r, c): assert @identity_of_the_signing_certificate c == cert
+//@   on call setAssemblyIdentity(_, _) ret (a, e): asiDone = (e == nil)
+//@   on call setPublisherIdentity(_, _) ret (s, e): pubDone = (e == nil)
+//@   before call xmldsig.Sign(_, _, _, k, cs, _): assert @identity_fields_set_before_signing_with_the_same_certificate asiDone && pubDone
